@@ -72,6 +72,9 @@ func (s *Service) VerifFragmentNames(kind partitions.Kind, partID uint64) []stri
 	return out
 }
 
+// VerifFragmentName is the name of the fragments of DMap name (the key of a partition's fragment map).
+func (s *Service) VerifFragmentName(name string) string { return s.fragmentName(name) }
+
 // VerifFragmentKeys returns every (hkey, key) held by the fragment.
 func (s *Service) VerifFragmentKeys(kind partitions.Kind, name string, partID uint64) map[uint64]string {
 	out := map[uint64]string{}
